@@ -22,11 +22,14 @@ CORPORA = {
     'two-cats': [('tokenized', 'a/N/x b/V a/N/y'), ('tokenized', 'b//z a')],
     'partial': [('partial', 'a/N-b|c/X c/Y|a'), ('tokenized', 'c//Z ab/N')],
     'absent': [('tokenized', 'a b/T a'), ('tokenized', 'b a/U')],
+    # occurrences without any context feature: a token that is the whole sentence; a tag seen only there
+    'single-token': [('tokenized', 'a/S'), ('tokenized', 'b/N a/T c'), ('tokenized', 'c/K')],
 }
 TAGDICT = {'none': [], 'dict': [('tokenized', 'zz/D1/D2 ab/Q c')]}
 CFGS = [(1, 1, 1, 1), (2, 2, 2, 2), (2, 3, 1, 2), (1, 2, 2, 1)]
+CFGS_EDGE = [(0, 1, 0, 1), (1, 0, 1, 0), (0, 0, 0, 0)]      # zero windows / zero n-gram sizes: (some) occurrences have no feature at all
 BOUNDS = {
-    'quick': {'corpora': sorted(CORPORA), 'tag dictionaries': sorted(TAGDICT), 'configurations': CFGS, 'learner': 'stub, coefficients from VERIF_SEED, every label order of the first two problems',
+    'quick': {'corpora': sorted(CORPORA), 'tag dictionaries': sorted(TAGDICT), 'configurations': CFGS + CFGS_EDGE, 'learner': 'stub, coefficients from VERIF_SEED, every label order of the first two problems',
               'evaluation text': '1..2 symbolic characters over {corpus characters, any other value}, symbolic boundary label'},
     'thorough': {'corpora': sorted(CORPORA), 'tag dictionaries': sorted(TAGDICT), 'configurations': CFGS + [(3, 3, 2, 2), (2, 1, 3, 0)], 'evaluation text': '1..3 symbolic characters'},
 }
@@ -51,6 +54,11 @@ def jobs(tier, seed):
                     continue
                 for n in range(1, (2 if tier == 'quick' else 3) + 1):
                     js.append({'name': 'tags/%s/%s/%s/n%d' % (cn, td, '-'.join(map(str, cfg)), n), 'corpus': cn, 'tagdict': td, 'cfg': list(cfg), 'n': n, 'seed': seed})
+        for cfg in CFGS_EDGE:
+            if tier == 'quick' and cn not in ('single-token', 'tagged'):
+                continue
+            for n in (1, 2):
+                js.append({'name': 'tags/%s/%s/%s/n%d' % (cn, 'none', '-'.join(map(str, cfg)), n), 'corpus': cn, 'tagdict': 'none', 'cfg': list(cfg), 'n': n, 'seed': seed})
     js.sort(key=lambda j: -j['n'])
     return js
 
